@@ -14,7 +14,10 @@
 //   lost   never resumed / never freed          dup    resumed / called / freed more than once
 //   wrong  a value that was not emitted in this round (or a destroyed object: negative)
 //   order  per thread, a later subscription got an earlier value than an earlier one (or a value after a cancel)
-// The expected line comes from the model (all zero: c15_cross_thread_conservation / _terminal).
+// op: 42 iters jitter   hook-up under real threads: per iteration a listener awaits signal<T>::hook_up(fn); fn hands the
+//   collector to an emitter thread (and then keeps running for up to `jitter` spins); the emitter thread emits 1 through it as
+//   soon as it sees it and drops it.  The listener must receive exactly 1: lost = never resumed, wrong = cancelled / other value.
+// The expected line comes from the model (all zero: c15_cross_thread_conservation / _terminal, c15_hook_up_receives).
 #define VH_DEFINE_NEW
 #include "common.h"
 #include <cocls/signal.h>
@@ -153,8 +156,69 @@ static void one_round(long chunk, int nsub, long cbmask, long jitter, unsigned s
             if (p.h) p.h.destroy();
 }
 
+template <typename E>
+static plain_co hook_listener(Slot *s, E e) {
+    try {
+        Val &v = co_await e;
+        s->val.store(v.v, std::memory_order_relaxed);
+    } catch (const await_canceled_exception &) {
+        s->val.store(CANCELLED, std::memory_order_relaxed);
+    }
+    s->runs.fetch_add(1);
+}
+
+static void hook_rounds(long iters, long jitter, Counts &c) {
+    std::atomic<sig_t::collector *> slot{nullptr};
+    std::atomic<long> done{0};
+    std::atomic<bool> stop{false};
+    std::thread emitter([&] {
+        for (;;) {
+            sig_t::collector *col;
+            while ((col = slot.exchange(nullptr, std::memory_order_acquire)) == nullptr) {
+                if (stop.load(std::memory_order_acquire)) return;
+                std::this_thread::yield();
+            }
+            (*col)(1);          // a generator thread that emits while the registration may still be running
+            delete col;         // and disconnects
+            done.fetch_add(1, std::memory_order_release);
+        }
+    });
+    unsigned r = (unsigned)(iters * 7 + jitter);
+    for (long it = 0; it < iters; it++) {
+        Slot s;
+        long spins = 0;
+        if (jitter) {
+            r = r * 1664525u + 1013904223u;
+            spins = (r >> 8) % (jitter + 1);
+        }
+        auto reg = [&slot, spins](sig_t::collector col) {
+            slot.store(new sig_t::collector(std::move(col)), std::memory_order_release);
+            for (volatile long k = spins; k > 0; k = k - 1) {}      // the rest of the registration
+        };
+        plain_co co = hook_listener(&s, sig_t::hook_up(reg));
+        while (done.load(std::memory_order_acquire) <= it) std::this_thread::yield();
+        int runs = s.runs.load();
+        if (runs == 0) c.lost++;
+        else {
+            if (runs > 1) c.dup++;
+            if (s.val.load() != 1) c.wrong++;
+        }
+        co.h.destroy();
+    }
+    stop.store(true, std::memory_order_release);
+    emitter.join();
+}
+
 static void run_case(const vh::Case &cs) {
     for (auto &op : cs.ops) {
+        if (op.size() == 3 && op[0] == 42 && op[1] >= 1 && op[1] <= 1000000 && op[2] >= 0 && op[2] <= 1000) {
+            Counts c;
+            hook_rounds(op[1], op[2], c);
+            if (c.lost || c.dup || c.wrong || c.order)
+                std::fprintf(stderr, "stress_signal(hook-up): LOST=%ld DUP=%ld WRONG=%ld (op %ld %ld)\n", c.lost, c.dup, c.wrong, op[1], op[2]);
+            vh::print_obs({20, c.lost, c.dup, c.wrong, c.order});
+            continue;
+        }
         bool ok = op.size() == 5 && op[0] == 40 && op[1] >= 1 && op[1] <= 1000000 && op[2] >= 1 && op[2] <= 4 && op[3] >= 0 &&
                   op[3] <= 15 && op[4] >= 0 && op[4] <= 1000;
         if (!ok) { vh::print_obs({1}); continue; }
